@@ -147,7 +147,7 @@ func isInTestOnlyContext(
 		// Extract receiver type
 		receiverType := ""
 		if len(currentFunc.Recv.List) > 0 {
-			receiverType = annotations.ExtractReceiverType(currentFunc.Recv.List[0].Type)
+			receiverType = annotations.ReceiverTypeName(ctx.pass, currentFunc.Recv.List[0].Type)
 		}
 		methodName := currentFunc.Name.Name
 		return ctx.testOnlyMethods.Match(*ctx.currentPkgPath, methodName, receiverType)
